@@ -222,7 +222,15 @@ type BuildOpts struct {
 	Switched   bool // configure the other router first, then the wanted one (router switching must be unobservable)
 	Entity     bool // route functions answer with WriteEntity (content negotiation) instead of raw bytes
 	ReadBody   bool // route functions read the raw request body and log it
+	// Default: use the package-level restful.DefaultContainer through the package-level functions (restful.Add,
+	// restful.Filter). Its registrations cannot be undone, so only the first request per process is honoured.
+	Default bool
 }
+
+var defaultContainerUsed bool
+
+// DefaultContainerFree tells whether the package-level container is still unused in this process.
+func DefaultContainerFree() bool { return !defaultContainerUsed }
 
 // EntityDoc is what entity-writing route functions return.
 type EntityDoc struct {
@@ -378,6 +386,11 @@ func Build(t *Table, o BuildOpts) *restful.Container {
 func BuildWS(t *Table, o BuildOpts) (*restful.Container, []*restful.WebService) {
 	wss := make([]*restful.WebService, len(t.Svcs))
 	c := restful.NewContainer()
+	useDefault := o.Default && !defaultContainerUsed
+	if useDefault {
+		defaultContainerUsed = true
+		c = restful.DefaultContainer
+	}
 	if o.Switched {
 		if o.Router == "jsr311" {
 			c.Router(restful.CurlyRouter{})
@@ -391,7 +404,11 @@ func BuildWS(t *Table, o BuildOpts) (*restful.Container, []*restful.WebService) 
 		c.Router(restful.CurlyRouter{})
 	}
 	if o.SelFilters {
-		c.Filter(selFilter("container"))
+		if useDefault {
+			restful.Filter(selFilter("container"))
+		} else {
+			c.Filter(selFilter("container"))
+		}
 	}
 	n := len(t.Svcs)
 	for k := 0; k < n; k++ {
@@ -419,7 +436,11 @@ func BuildWS(t *Table, o BuildOpts) (*restful.Container, []*restful.WebService) 
 			ord = o.RouteOrder[i]
 		}
 		wss[i] = NewService(s, ord, o, i)
-		c.Add(wss[i])
+		if useDefault {
+			restful.Add(wss[i])
+		} else {
+			c.Add(wss[i])
+		}
 	}
 	return c, wss
 }
